@@ -106,6 +106,7 @@ func C09(o *core.Options) int {
 		}
 		return faultReplay(o, r, iteratorCachesCfg)
 	}
+	c09Seam(r)
 	faultSweep(o, r, iteratorCachesCfg, 30, 3)
 	c09CachedIterators(o, r)
 	return r.Finish()
